@@ -1122,7 +1122,10 @@ main(int argc, char **argv)
 
 	// S3 / S4 / S2-sequential first: cheap and independent of the budgets
 	static s3arg s3[] = { { 10, 10, 0 }, { 10, 40, 1 }, { 50, 0, 0 }, { 40, 10, 1 },
-		{ 1, 1, 0 }, { 7, 100, 1 } };
+		{ 3, 3, 0 }, { 7, 100, 1 } };
+	// (a reconnect time of 1 ms makes every delay "random % 1" = 0: with a
+	// refusing peer the dialer then redials in a loop that never lets the
+	// virtual clock advance, so 3 ms is the smallest configuration used)
 	int          ns3 = T ? 6 : 4;
 	for (int i = 0; i < ns3; i++) {
 		snprintf(name, sizeof(name), "S3-redial-m%d-M%d-%s", s3[i].m, s3[i].M,
@@ -1162,9 +1165,9 @@ main(int argc, char **argv)
 		[OP_LISTENER_CLOSE]      = { 1, 3, 1, 2 },
 		[OP_REJECT_A_CLOSE_B]    = { 1, 2, 1, 1 },
 		[OP_POSTCLOSE_B_CLOSE_A] = { 1, 2, 1, 1 },
-		[OP_CB_CLOSE2]           = { 1, 3, 1, 1 },
+		[OP_CB_CLOSE2]           = { 1, 2, 1, 1 },
 		[OP_CB_CLOSE3]           = { 2, 3, 1, 2 },
-		[OP_CB_CLOSE4]           = { 1, 3, 1, 1 },
+		[OP_CB_CLOSE4]           = { 1, 2, 1, 1 },
 		[OP_TWO_DIALERS]         = { 1, 2, 1, 2 },
 	};
 	static s1arg s1[3 * OP_N + 8];
